@@ -148,10 +148,15 @@ def check(case):
                                        'declared functions: %s' % (c.pyname, mm.group(1),
                                                                    sorted(known)[:6])))
         elif s.kind == 'attr':
-            v = s.value.strip()
-            if re.match(r'^[A-Za-z_][\w:]*$', v) and v not in known:
-                out.append(Failure('C09.qualification', 'variable %s bound to %s' % (s.pyname,
-                                                                                     v)))
+            v = re.sub(r'\s+', '', s.value)
+            ok_values = set()
+            for path, it in M.iter_items(m):
+                if isinstance(it, M.Var) and it.name == s.pyname:
+                    ok_values.add('::'.join(path + (it.name,)) if it.default is None
+                                  else re.sub(r'\s+', '', it.default))
+            if v not in ok_values:
+                out.append(Failure('C09.qualification', 'variable %s bound to %s, expected one '
+                                   'of %s' % (s.pyname, v, sorted(ok_values))))
     # (5) the compiler
     if case.get('compile'):
         header = cxxmock.emit(m)
